@@ -507,7 +507,7 @@ Qed.
 
 Lemma notify_model_ok c evs : spec_ok (Notify c evs) (model (Notify c evs)) = true.
 Proof.
-  cbn [model spec_ok]. destruct (coarse_fine c evs init) as [sched ->].
+  cbn [model spec_ok negb andb]. destruct (coarse_fine c evs init) as [sched ->].
   apply notify_spec_holds.
   - apply Inv_run. apply Inv_init.
   - intros b Hb. apply InvS_run; [apply same_binds_same; auto | apply Inv_init | apply InvS_init].
@@ -586,7 +586,7 @@ Theorem model_spec_ok : forall i, spec_ok i (model i) = true.
 Proof.
   intros [c evs|cands evs|n|g r].
   - apply notify_model_ok.
-  - cbn [model spec_ok]. apply once_spec_holds. apply OInv_run_oevs, OInv_init.
+  - cbn [model spec_ok negb andb]. apply once_spec_holds. apply OInv_run_oevs, OInv_init.
   - cbn. rewrite N.eqb_refl. reflexivity.
   - reflexivity.
 Qed.
